@@ -10,10 +10,7 @@
     view    packet(with sizes) + for paci: <opt (tl0 irap s e res)>               | nilpkt
 -/
 import Driver.Common
-import Rtp.Model.H265
-import Rtp.Pred.C14
-import Rtp.Pred.C08
-import Rtp.Pred.C09
+import Rtp.Model.H265Obs
 namespace Rtp.Kinds.H265
 open Rtp Rtp.Proto Rtp.Pred Rtp.Spec.Rfc7798
 open Rtp.Model.H265
@@ -75,30 +72,25 @@ def accHdr : Handler :=
     (do let f ← Rd.bool; let t ← Rd.u8; let v ← Rd.bool; let l ← Rd.u8; let i ← Rd.u8
         let a ← Rd.bool; let u ← Rd.bool; let p ← Rd.bool
         pure ({ f := f, type := t, vcl := v, layer := l, tid := i, agg := a, fu := u, paci := p } : C14.HdrAcc))
-    (fun h => { f := hdrF h, type := hdrType h, vcl := hdrIsVCL h, layer := hdrLayer h, tid := hdrTid h,
-                agg := hdrIsAgg h, fu := hdrIsFU h, paci := hdrIsPACI h })
-    C14.hdrAccOk
+    hdrAcc C14.hdrAccOk
 
 def accFu : Handler :=
   mkHandler Rd.u8
     (do let s ← Rd.bool; let e ← Rd.bool; let t ← Rd.u8; pure ({ s := s, e := e, type := t } : C14.FuAcc))
-    (fun b => { s := fuS b, e := fuE b, type := fuType b })
-    C14.fuAccOk
+    fuAcc C14.fuAccOk
 
 def accPaci : Handler :=
   mkHandler Rd.u16
     (do let a ← Rd.bool; let c ← Rd.u8; let p ← Rd.u8; let f0 ← Rd.bool; let f1 ← Rd.bool
         let f2 ← Rd.bool; let y ← Rd.bool
         pure ({ a := a, cType := c, phs := p, f0 := f0, f1 := f1, f2 := f2, y := y } : C14.PaciAcc))
-    (fun w => { a := paciA w, cType := paciCType w, phs := paciPHS w, f0 := paciF0 w, f1 := paciF1 w,
-                f2 := paciF2 w, y := paciY w })
-    C14.paciAccOk
+    paciAcc C14.paciAccOk
 
 /-- `<a> <b> <c0> <count> => <count> (opt tsci)*` -/
 def accTsci : Handler :=
   mkHandler (do let a ← Rd.u8; let b ← Rd.u8; let c ← Rd.nat; let n ← Rd.nat; pure (a, b, c, n))
     (Rd.list (Rd.opt rdTsci))
-    (fun (a, b, c, n) => (List.range n).map fun i => some (tsciView (tsciWord a b (c + i).toUInt8)))
+    (fun (a, b, c, n) => tsciAcc a b c n)
     (fun (a, b, c, _) o => C14.tsciAccOk a b c o)
 
 /-! ### c14.dec -/
@@ -111,15 +103,13 @@ def rdResParsed : Rd (Res Parsed) := do
   | "panic" => pure .panic
   | _ => Rd.fail
 
-def modelRes (donl : Bool) (p : Option Bytes) : Res Parsed := ((unmarshal donl p).map Pkt.view).coarse
-
 /-- `<mode> <packet> <opt cut> <fed bytes> => <res view> <head>` -/
 def dec : Handler :=
   mkHandler
     (do let m ← Rd.bool; let (p, _) ← rdPacket false; let c ← Rd.opt Rd.nat; let b ← Rd.bytes
         pure (m, p, c, b))
     (do let r ← rdResParsed; let h ← Rd.bool; pure ({ res := r, head := h } : C14.DecObs))
-    (fun (m, _, _, b) => { res := modelRes m (some b), head := isPartitionHead b })
+    (fun (m, _, _, b) => decObs m b)
     (fun (m, p, c, b) o => C14.decOk m p c b o)
     (fun (m, p, c, _) => p.WF m && (match c with | none => true | some n => decide (n < (encode p).length)))
 
@@ -147,16 +137,6 @@ def rdRtObs : Rd (List (Option (List C14.PktObs))) :=
     | "ok" => do let l ← Rd.list rdPktObs; pure (some l)
     | _ => Rd.fail)
 
-def pktObs (donl : Bool) (p : Bytes) : C14.PktObs :=
-  { payload := p, res := modelRes donl (some p), head := isPartitionHead p }
-
-/-- the payloads the model emits for a sequence of frames on one payloader -/
-def rtPayloads (i : RtIn) : List (List Bytes) :=
-  payloadHist i.cfg 0 (i.frames.map fun f => (i.mtu, some (C14.frameBytes f)))
-
-def rtModel (i : RtIn) : List (Option (List C14.PktObs)) :=
-  (rtPayloads i).map fun ps => some (ps.map (pktObs i.cfg.addDONL))
-
 /-- hypotheses of `c14_roundtrip`: MTU ≥ 4 (with DONL: ≥ 6, the smallest MTU at which an FU can
     carry a payload octet), well-formed units, Annex-B framing that can carry them -/
 def rtWF (i : RtIn) : Bool :=
@@ -165,10 +145,10 @@ def rtWF (i : RtIn) : Bool :=
 def isFU (p : Bytes) : Bool := match p with | a :: b :: _ => hdrIsFU (rd16 a b) | _ => false
 
 /-- region of the known finding `c14_donl_fu`: AddDONL and some unit is fragmented -/
-def rtKF (i : RtIn) : Bool := i.cfg.addDONL && (rtPayloads i).any (·.any isFU)
+def rtKF (i : RtIn) : Bool := i.cfg.addDONL && (rtPayloads i.cfg i.mtu i.frames).any (·.any isFU)
 
 def rt : Handler :=
-  mkHandler rdRtIn rdRtObs rtModel
+  mkHandler rdRtIn rdRtObs (fun i => rtObs i.cfg i.mtu i.frames)
     (fun i o => if rtWF i then C14.rtOk i.cfg i.mtu i.frames o else C14.rtNoPanic o)
     rtWF
     (fun i _ => if rtKF i then some "c14_donl_fu" else none)
@@ -178,7 +158,7 @@ def rt : Handler :=
 def c08 : Handler :=
   mkHandler (do let a ← Rd.bool; let s ← Rd.bool; let cs ← rdCalls; pure (({ addDONL := a, skipAgg := s } : Cfg), cs))
     rdPayObsList
-    (fun (cfg, cs) => (payloadHist cfg 0 cs).map PayObs.ofFrags)
+    (fun (cfg, cs) => c08Obs cfg cs)
     (fun (_, cs) os => C08.histOk false cs os)
 
 /-! ### c09.h265 -/
@@ -191,20 +171,6 @@ def rdDep : Rd Dep := do
   let h ← Rd.bool; let t0 ← Rd.bool; let t1 ← Rd.bool
   let ap ← Rd.bool; let fs ← Rd.bool; let ts ← Rd.bool
   pure { res := r, md := md, head := h, tail0 := t0, tail1 := t1, auxPanic := ap, freshSame := fs, twinSame := ts }
-
-/-- one receiver fed a sequence of payloads.  `H265Packet` decodes every payload on its own, so
-    the model carries no state; the metadata (the view of `p.packet`) is compared only when the
-    call succeeded — after a failed call `p.packet` still refers to an earlier input buffer, which
-    the harness has overwritten by then. -/
-def depHist (donl : Bool) : List (Option Bytes) → List Dep
-  | [] => []
-  | p :: ps =>
-    let r := unmarshal donl p
-    { res := (r.map fun _ => ([] : Bytes)).coarse,
-      md := (match r with | .ok k => some k.view | _ => none),
-      head := isPartitionHead (p.getD []),
-      tail0 := isPartitionTail false (p.getD []), tail1 := isPartitionTail true (p.getD []),
-      auxPanic := false, freshSame := true, twinSame := true } :: depHist donl ps
 
 def c09 : Handler :=
   mkHandler (do let d ← Rd.bool; let ps ← Rd.list Rd.obytes; pure (d, ps))
